@@ -386,7 +386,11 @@ func parseProposalAnswer(str string, props []*Proposal, l *log.Logger) error {
 			}
 			prop.answer = Defer
 		case 'A', 'a', '!':
-			idx := strings.LastIndexAny(str, "0123456789")
+			// The offset is the run of digits following the answer character.
+			idx := -1
+			for idx+1 < len(str) && str[idx+1] >= '0' && str[idx+1] <= '9' {
+				idx++
+			}
 			if idx < 0 {
 				return errors.New("Got offset request without offset index")
 			}
